@@ -240,6 +240,34 @@ func genC24(r *rand.Rand, id string) c24Case {
 			k.CCurves = c
 		}
 	}
+	// keep most ECDSA key curves inside the listed curves (otherwise the pair is outside the predicate)
+	for _, cert := range k.Certs {
+		if cc := certCurve(cert); cc != 0 && r.IntN(100) < 75 {
+			if k.CCurves != nil && !has16(k.CCurves, cc) {
+				k.CCurves = append(k.CCurves, cc)
+			}
+			if k.SCurves != nil && !has16(k.SCurves, cc) {
+				k.SCurves = append(k.SCurves, cc)
+			}
+		}
+	}
+	// half of the explicit lists avoid mixing AES-GCM with ChaCha20, so that the preference rule is decidable exactly
+	strip := func(l []uint16) []uint16 {
+		if l == nil || r.IntN(100) >= 50 {
+			return l
+		}
+		out := []uint16{}
+		for _, id := range l {
+			if !isChaCha(id) {
+				out = append(out, id)
+			}
+		}
+		if len(out) == 0 {
+			return l
+		}
+		return out
+	}
+	k.CSuites, k.SSuites = strip(k.CSuites), strip(k.SSuites)
 	k.CALPN, k.SALPN = genALPN(r), genALPN(r)
 	if k.Peer == "zg" && len(k.CALPN) > 0 && len(k.SALPN) > 0 {
 		// Go's server aborts when both sides list protocols and none is shared: outside the property's domain
